@@ -168,7 +168,8 @@ def rule_b(repo, chk):
         arg_ok = len(push.args) == 2 and src(push.args[1]) == f'self.{fifo}.popleft()'
         chk.ob('b', d.ref, 'the entry pushed onto the heap is the oldest FIFO entry (popleft)', arg_ok, loc(d, push),
                detail=f'`{src(push)}`', discr='move-popleft')
-        p = pat.guarded_by(g, mv, pat.test_edge(lambda t, pol: pat.fact_matches(pat.compare_fact(t, pol), f'self.{batch}', ('==', '<='), '0')))
+        p = pat.guarded_by(g, mv, pat.test_edge(lambda t, pol: pat.fact_matches(pat.compare_fact(t, pol), f'self.{batch}', ('==', '<='), '0')
+                                                or (pol == 'F' and src(t) == f'self.{batch}')))      # `if not self.<remaining>:`
         chk.ob('b', d.ref, 'refilling the heap happens only when the remaining count of the current pass is 0', p is None,
                loc(d, push), path=pat.path_lines(p) if p else None, discr='refill-guard')
         # the loop that moves entries is bounded by a count taken from len(FIFO), which is also stored as remaining
@@ -196,6 +197,15 @@ def rule_b(repo, chk):
             if not decs:
                 ok = False
             detail = f'loop variable `{cv}`'
+        if loops and isinstance(loops[-1], ast.For) and isinstance(loops[-1].iter, ast.Call) and call_name(loops[-1].iter) == 'range' and len(loops[-1].iter.args) == 1:
+            # `for _ in range(n)`: n is the snapshot of the FIFO length, which is also what is stored as remaining count
+            cv = src(loops[-1].iter.args[0])
+            snaps = [n for n in g.nodes if n.kind == 'stmt' and isinstance(n.ast, ast.Assign) and src(n.ast.value) == f'len(self.{fifo})' and cv in [src(t) for t in n.ast.targets]]
+            stored = [n for n in g.nodes if n.kind == 'stmt' and isinstance(n.ast, ast.Assign) and f'self.{batch}' in [src(t) for t in n.ast.targets]
+                      and (src(n.ast.value) == cv or (src(n.ast.value) == f'len(self.{fifo})' and cv in [src(t) for t in n.ast.targets]))]
+            rebound = [n for n in g.nodes if n.kind == 'stmt' and cv in Q.node_defs(n) and n not in snaps]
+            ok = bool(snaps) and bool(stored) and not rebound
+            detail = f'loop over range({cv})'
         chk.ob('b', d.ref, 'the number of entries moved equals the snapshot of the FIFO length stored as remaining count', ok,
                loc(d, push), detail=detail, discr='move-count')
     # drain loop
@@ -248,6 +258,12 @@ def rule_b(repo, chk):
         pop = [c for c in calls_in(pn.ast) if call_name(c) == 'heappop'][0]
         par = getattr(pop, '_parent', None)
         ok = isinstance(par, ast.Subscript) and pat.is_const(par.slice, 2) and src(pop.args[0]) == f'self.{heap}'
+        if not ok and isinstance(pn.ast, ast.Assign) and pn.ast.value is pop and len(pn.ast.targets) == 1 and isinstance(pn.ast.targets[0], ast.Tuple) \
+                and len(pn.ast.targets[0].elts) == 3 and src(pop.args[0]) == f'self.{heap}':
+            # `prio, seq, (event, channels) = heappop(heap)`: the third component is unpacked into what the dispatcher gets
+            third = pn.ast.targets[0].elts[2]
+            names = [src(x) for x in third.elts] if isinstance(third, ast.Tuple) else [src(third)]
+            ok = all(any([src(a) for a in c.args[:len(names)]] == names for c in calls_in(cn.ast) if call_name(c) == disp_param) for cn in calls) and bool(names)
         chk.ob('b', d.ref, 'the dispatched (event, channels) pair is the payload of the popped heap entry', ok, loc(d, pop),
                detail=f'`{src(pn.ast)}`', discr='payload-of-pop')
 
@@ -347,7 +363,19 @@ def rule_d(repo, chk):
                 if not (isinstance(sv, ast.Name)):
                     ok = False
                     continue
-                for d2 in Q.reaching_defs(g, sn, sv.id):
+                d2s = Q.reaching_defs(g, sn, sv.id)
+                for _round in range(3):          # look through plain copies (`handlers = ordered`)
+                    nxt = []
+                    for d2 in d2s:
+                        v2 = d2.ast.value if d2.kind == 'stmt' and isinstance(d2.ast, ast.Assign) else None
+                        if isinstance(v2, ast.Name):
+                            nxt.extend(Q.reaching_defs(g, d2, v2.id))
+                        else:
+                            nxt.append(d2)
+                    if nxt == d2s:
+                        break
+                    d2s = nxt
+                for d2 in d2s:
                     v2 = d2.ast.value if d2.kind == 'stmt' and isinstance(d2.ast, ast.Assign) else None
                     if not _is_desc_sort(v2):
                         ok = False
